@@ -187,7 +187,13 @@ func handleSUR() diam.HandlerFunc {
 			sua.ServiceRating.Price = monetaryCost
 		// price for the reserved units
 		case charging_datatype.REQ_SUBTYPE_RESERVE:
-			sua.ServiceRating.AllowedUnits = sr.MonetaryQuota / unitCost
+			if unitCost == 0 {
+				// a zero (or unparsable) tariff must not take the handler down with a division by zero
+				logger.RatingLog.Warnf("unit cost [%s] of UE [%s] RG [%d] rates to 0", unitCostStr, subscriberId, rg)
+				sua.ServiceRating.AllowedUnits = datatype.Unsigned32(0)
+			} else {
+				sua.ServiceRating.AllowedUnits = sr.MonetaryQuota / unitCost
+			}
 			sua.ServiceRating.Price = sua.ServiceRating.AllowedUnits * unitCost
 		default:
 			logger.RatingLog.Warnf("Unknow request type")
